@@ -106,3 +106,103 @@ Proof.
     replace (len p + padlen 8 (len p)) with (len (p ++ zeros (padlen 8 (len p)))) by (rewrite len_app, len_zeros; reflexivity).
     apply skipnN_app_len.
 Qed.
+
+(** ** C05: the header a message marshals to is a valid header that says what the message says *)
+Fixpoint nodup_bool (l : list N) : bool :=
+  match l with [] => true | x :: r => negb (existsb (N.eqb x) r) && nodup_bool r end.
+Lemma nodup_bool_sound l : nodup_bool l = true -> NoDup l.
+Proof.
+  induction l as [|x r IH]; intros H; [constructor|]. cbn [nodup_bool] in H. apply andb_prop in H. destruct H as [Hx Hr].
+  constructor; [|now apply IH]. intros Hin. apply existsb_eqb_in in Hin. rewrite Hin in Hx. discriminate.
+Qed.
+
+Lemma msg_no_duplicates m : no_duplicates (fields_of_msg m).
+Proof.
+  unfold no_duplicates, fields_of_msg. apply nodup_bool_sound.
+  destruct (m_reply_serial m), (m_interface m), (m_destination m), (m_sender m), (m_member m), (m_object m), (m_error_name m),
+    (is_nil (m_body m)), (m_nfds m =? 0); reflexivity.
+Qed.
+
+Lemma msg_decoded m serial : decoded (hdr_of_msg m serial) (fields_of_msg m).
+Proof.
+  unfold decoded, hdr_of_msg, fields_of_msg, find_field.
+  cbn [h_object h_interface h_member h_error_name h_reply_serial h_destination h_sender h_signature h_unix_fds].
+  destruct (m_reply_serial m), (m_interface m), (m_destination m), (m_sender m), (m_member m), (m_object m), (m_error_name m),
+    (is_nil (m_body m)), (m_nfds m =? 0); repeat split; reflexivity.
+Qed.
+
+Lemma msg_fields_field_ok m : rust_typed m -> fields_valid m -> Forall field_ok (fields_of_msg m).
+Proof.
+  intros T [(Vi & Vd & Vs & Vm & Vp & Ve) Vsig]. unfold fields_of_msg. repeat rewrite Forall_app. repeat split.
+  - apply Forall_opt_field. intros n E. apply field_ok_reply_serial.
+    pose proof (rt_rs m T) as R. rewrite E in R. cbn in R. unfold nonzero_u32 in R. lia.
+  - apply Forall_opt_field. intros s E. rewrite E in Vi. now apply field_ok_interface.
+  - apply Forall_opt_field. intros s E. rewrite E in Vd. now apply field_ok_destination.
+  - apply Forall_opt_field. intros s E. rewrite E in Vs. now apply field_ok_sender.
+  - apply Forall_opt_field. intros s E. rewrite E in Vm. now apply field_ok_member.
+  - apply Forall_opt_field. intros s E. apply field_ok_path.
+  - apply Forall_opt_field. intros s E. rewrite E in Ve. now apply field_ok_errorname.
+  - destruct (is_nil (m_body m)); [constructor|]. constructor; [apply field_ok_signature|constructor].
+  - destruct (m_nfds m =? 0); [constructor|]. constructor; [apply field_ok_unix_fds|constructor].
+Qed.
+
+Lemma has_opt_some {A} c (o : option A) mk x : o = Some x -> hf_code (mk x) = c -> has c (opt_field o mk).
+Proof. intros -> <-. cbn. auto. Qed.
+
+Lemma msg_required m : required_present m -> required (type_no (m_typ m)) (fields_of_msg m).
+Proof.
+  intros H. unfold required, required_present, fields_of_msg in *. rewrite !has_app.
+  assert (P : forall {A} (o : option A) mk c, o <> None -> (forall x, hf_code (mk x) = c) -> has c (opt_field o mk)).
+  { intros A o mk c Ho Hc. destruct o as [x|]; [|contradiction]. cbn. left. apply Hc. }
+  destruct (m_typ m); cbn [type_no].
+  - (* signal: 4 *) destruct H as (Ho & Hm & Hi).
+    split; [intros E; discriminate E|]. split; [intros E; discriminate E|]. split; [intros E; discriminate E|].
+    intros _. split; [|split].
+    + do 5 right. left. apply P; [exact Ho|reflexivity].
+    + right. left. apply P; [exact Hi|reflexivity].
+    + do 4 right. left. apply P; [exact Hm|reflexivity].
+  - (* error: 3 *) destruct H as (He & Hr).
+    split; [intros E; discriminate E|]. split; [intros E; discriminate E|]. split; [|intros E; discriminate E].
+    intros _. split.
+    + do 6 right. left. apply P; [exact He|reflexivity].
+    + left. apply P; [exact Hr|reflexivity].
+  - (* call: 1 *) destruct H as (Ho & Hm).
+    split; [|split; [intros E; discriminate E|split; intros E; discriminate E]].
+    intros _. split.
+    + do 5 right. left. apply P; [exact Ho|reflexivity].
+    + do 4 right. left. apply P; [exact Hm|reflexivity].
+  - (* reply: 2 *)
+    split; [intros E; discriminate E|]. split; [|split; intros E; discriminate E].
+    intros _. left. apply P; [exact H|reflexivity].
+  - contradiction.
+Qed.
+
+Theorem msg_header_valid m serial hb : rust_typed m -> nonzero_u32 serial -> required_present m ->
+  marshal_msg m serial = Ok hb ->
+  header_fields_ok (hdr_of_msg m serial) (fields_of_msg m)
+  /\ hb = hdr_bytes (hdr_of_msg m serial) (fields_of_msg m)
+          ++ zeros (padlen 8 (len (hdr_bytes (hdr_of_msg m serial) (fields_of_msg m)))).
+Proof.
+  intros T Hs Hreq H. destruct (marshal_msg_spec m serial hb T H) as (-> & Hv & Hni & Hw & He & Hl).
+  split; [|reflexivity].
+  unfold header_fields_ok. cbn [hdr_of_msg h_typ h_flags h_body_len h_serial h_be].
+  split; [destruct (m_typ m); cbn; try lia; now elim Hni|].
+  split; [apply (rt_flags m T)|].
+  split; [assert (2 ^ 27 < 2 ^ 32) by (apply N.pow_lt_mono_r; lia); lia|].
+  split; [exact Hs|]. split; [exact Hw|]. split; [exact He|].
+  split; [now apply msg_fields_field_ok|]. split; [apply msg_no_duplicates|]. split; [now apply msg_required|apply msg_decoded].
+Qed.
+
+(** the round trip through the library's own decoders *)
+Theorem roundtrip m serial hb nfds : rust_typed m -> nonzero_u32 serial -> required_present m ->
+  marshal_msg m serial = Ok hb ->
+  decode_message (hb ++ m_body m) nfds =
+  Ok {| dm_hdr := hdr_of_msg m serial; dm_body := m_body m;
+        dm_sig := if is_nil (m_body m) then [] else m_sig m; dm_nfds := nfds |}.
+Proof.
+  intros T Hs Hreq H. destruct (msg_header_valid m serial hb T Hs Hreq H) as [Hok ->].
+  set (h := hdr_of_msg m serial) in *. set (p := hdr_bytes h (fields_of_msg m)) in *.
+  unfold decode_message. rewrite <- !app_assoc. unfold p at 1. rewrite (decode_hdr_bytes h _ _ Hok). cbn [bind fst snd]. fold p.
+  rewrite next_message_spec by reflexivity. f_equal. f_equal.
+  subst h. cbn [hdr_of_msg h_signature]. destruct (is_nil (m_body m)); reflexivity.
+Qed.
